@@ -130,6 +130,7 @@ type Engine struct {
 	exploreAllPanics bool
 	handled          bool
 	capturedNames    map[string]bool // fn|local: locals captured by some closure of fn
+	makeFuncs        map[string]*Closure // reflect.MakeFunc values -> their Go closure
 	spawningFns      map[string]bool // functions that start goroutines or register AfterFunc hooks
 	sitesHit         map[string]bool
 	entered          map[string]bool
@@ -377,7 +378,8 @@ type Frame struct {
 	Dst       ssa.Value
 	OnRet     string // special continuation tag
 	Args      []Val
-	Cells     map[string]*Cell // name -> cell (source-named locals)
+	Cells     map[string]*Cell // name -> cell (source-named locals; the latest declaration wins)
+	CellsAll  map[string][]*Cell // name -> all cells of that name in allocation order (name__k in specs)
 	LoopSeen  map[int]bool
 	Results   []Val
 	CallSite  ssa.Instruction
@@ -429,6 +431,10 @@ func (s *State) clone() *State {
 		nf.Cells = make(map[string]*Cell, len(f.Cells))
 		for k, v := range f.Cells {
 			nf.Cells[k] = v
+		}
+		nf.CellsAll = make(map[string][]*Cell, len(f.CellsAll))
+		for k, v := range f.CellsAll {
+			nf.CellsAll[k] = append([]*Cell(nil), v...)
 		}
 		nf.LoopSeen = make(map[int]bool, len(f.LoopSeen))
 		for k, v := range f.LoopSeen {
